@@ -300,6 +300,15 @@ def run(chk):
     sim = S.Sim(prog)
     check_constructor(chk, prog, sim)
     check_accessors(chk, prog, sim)
+    # the constructor's guarantee must not depend on the profile: in a release build (K6) debug_assert!s are gone, so an
+    # ordering assertion downgraded to debug_assert! lets 0 <= t1 <= t2 <= t3 fail silently
+    p6 = load_config("K6")
+    chk.configs.append("K6")
+    before = len(chk.violations)
+    check_constructor(chk, p6, S.Sim(p6))
+    for v in chk.violations[before:]:
+        v["key"] += "@K6"
+        v["what"] = "[release profile] " + v["what"]
     # piece -> mode / unit conversion table: defined exactly for the three moving pieces, in the checking configuration and
     # with dimension checking compiled out (K4), where a cfg-split conversion could start accepting BeforeStart / Complete
     import rules.C01 as C01
